@@ -15,7 +15,7 @@ func notYet(id string) {
 }
 
 func init() {
-	for _, id := range []string{"C02", "C03", "C04", "C05", "C07", "C08", "C10", "C11", "C15", "C20"} {
+	for _, id := range []string{"C02", "C03", "C04", "C05", "C08", "C10", "C11"} {
 		notYet(id)
 	}
 	claim("C06", "other",
@@ -58,4 +58,13 @@ func init() {
 		"Decided: R-REBASE, R-STREAMERR, R-POOLREUSE (structural necessary conditions). Not decided: equivalence with a cursor over the whole input for all chunkings, memory bound, token lifetime vs Free (history/schedule-valued).")
 	claim("C01", "other",
 		"(in progress) recursion and cursor-primitive rules", "", "call-graph SCC analysis; affine guards", "DESIGN.md 4/C01", "in progress")
+	claim("C20", "other",
+		"Static non-interference argument over every function of every non-test package: no package-level variable, and no memory reachable by one load from a reference-typed package-level variable (followed through phis, slicing, element/field addressing and module callees that write through a parameter), is written outside package initialisation; no goroutine is started; no unsafe/cgo/atomic; sync only as the audited mutex of binaryReaderSeeker; constructors store no reference to package-level memory into new instances except the audited terminator buffers. With no shared mutable state, instances on disjoint data cannot race under any interleaving and results cannot depend on earlier calls.",
+		"Assumes the Go memory model for disjoint data, race-free standard library callees, and callers not mutating exported variables or shared constant slices handed to them. Aliases that travel through struct fields (e.g. css.Parser.data = endBytes) are followed only one load deep; the append onto such a field is covered by the audited-site note in DESIGN.md.",
+		"who-may-write analysis over SSA (global-rooted address/alias tracking, write-through-parameter summaries)", "DESIGN.md 4/C20",
+		"Decided: R-GLOBALS (one obligation per package-level variable), R-NOSHARE. Not decided: aliasing of package-level byte slices that flows through struct fields across calls (field-sensitive points-to), dynamic race detection.")
+	claim("C15", "other",
+		"(in progress) who-may-construct rule for parse.Error and offset provenance", "", "who-may-construct / value-origin rules on SSA", "DESIGN.md 4/C15", "in progress")
+	claim("C07", "other",
+		"(in progress) IsIdent/IsURLUnquoted reuse the lexer's scanners", "", "call-shape rule on SSA", "DESIGN.md 4/C07", "in progress")
 }
